@@ -1,7 +1,152 @@
 import Rare.Model.Expr.Build
+/-!
+`funcsLookups.go` (`lookup`, `haskey`; `load` touches the file system and stays unmodelled),
+`drawing.go` `kfRepeat`, and `funcsPath.go` (`basename`, `dirname`, `extname`).
+-/
 namespace Rare.Expr.Funcs.Misc
 open Rare.Expr
 
-def table : Table := []
+/-! ### buildLookupTable -/
+
+/-- Split at `\n` the way `bufio.ScanLines` does: a final unterminated line counts, an empty
+    remainder after the last `\n` does not; one trailing `\r` is dropped from every line. -/
+def splitLinesGo : Bytes → Bytes → List Bytes
+  | [], cur => if cur.isEmpty then [] else [cur]
+  | 10 :: r, cur => cur :: splitLinesGo r []
+  | c :: r, cur => splitLinesGo r (cur ++ [c])
+
+def dropCR (l : Bytes) : Bytes :=
+  match l.getLast? with
+  | some 13 => l.dropLast
+  | _ => l
+
+/-- `strings.Fields` for input without multi-byte white space (checked by the caller). -/
+def fieldsAscii : Bytes → Bytes → List Bytes
+  | [], cur => if cur.isEmpty then [] else [cur]
+  | c :: r, cur =>
+    if isAsciiSpace c then (if cur.isEmpty then fieldsAscii r [] else cur :: fieldsAscii r [])
+    else fieldsAscii r (cur ++ [c])
+
+/-- One `scanner.Scan()` round of `buildLookupTable`: the table after the line. -/
+def lookupStep (commentPrefix : Bytes) (tbl : List (Bytes × Bytes)) (line : Bytes) : List (Bytes × Bytes) :=
+  if !commentPrefix.isEmpty && commentPrefix.isPrefixOf line then tbl
+  else match fieldsAscii line [] with
+    | [k] => tbl ++ [(k, [])]
+    | [k, v] => tbl ++ [(k, v)]
+    | _ => tbl
+
+/-- `buildLookupTable` as an association list in insertion order (later entries win). -/
+def buildLookupTable (content commentPrefix : Bytes) : List (Bytes × Bytes) :=
+  ((splitLinesGo content []).map dropCR).foldl (lookupStep commentPrefix) []
+
+/-- `lookup[key]` with "later lines win". -/
+def tableGet (tbl : List (Bytes × Bytes)) (key : Bytes) : Option Bytes :=
+  (tbl.reverse.find? (·.1 == key)).map (·.2)
+
+/-- Lead bytes of the UTF-8 encodings of Unicode white space (`strings.Fields` would split there),
+    and lines too long for `bufio.Scanner`'s default buffer. -/
+def lookupModelled (content : Bytes) : Bool :=
+  content.all (fun b => b != 0xC2 && b != 0xE1 && b != 0xE2 && b != 0xE3) && content.length < 65000
+
+def lookupBuilder (render : Option Bytes → Bytes) : Builder := fun args =>
+  if args.length < 2 || args.length > 3 then errArgCount
+  else match args with
+    | a0 :: a1 :: _ =>
+      match a1.probe with
+      | .error m => .error m
+      | .ok (_, false) => errConst
+      | .ok (content, true) =>
+        match evalStageIndexOrDefault args 2 [] with
+        | .error m => .error m
+        | .ok commentPrefix =>
+          if !lookupModelled content then .error "unmodelled:lookup-unicode-space"
+          else
+            let tbl := buildLookupTable content commentPrefix
+            ok (do let key ← a0; pure (render (tableGet tbl key)))
+    | _ => errArgCount
+
+def kfLookupKey : Builder := lookupBuilder fun r => r.getD []
+def kfHasKey : Builder := lookupBuilder fun r => truthyStr r.isSome
+
+/-! ### repeat -/
+
+def repeatB (s : Bytes) : Nat → Bytes
+  | 0 => []
+  | n + 1 => s ++ repeatB s n
+
+def kfRepeat : Builder := fun args =>
+  match args with
+  | [a0, a1] =>
+    match a0.probe with
+    | .error m => .error m
+    | .ok (_, false) => errConst
+    | .ok (char, true) => ok (do
+      let c ← a1
+      match atoi c with
+      | none => pure ErrorNum
+      | some count =>
+        if count < 0 then pure ErrorValue
+        else if count * char.length > 1000000 then .panic "unmodelled:repeat-huge"
+        else pure (repeatB char count.toNat))
+  | _ => errArgCount
+
+/-! ### path helpers (`path/filepath` on a `/`-separated system) -/
+
+def stripTrailingSlashes (p : Bytes) : Bytes := (p.reverse.dropWhile (· == 47)).reverse
+
+/-- The part after the last `/` (everything when there is none). -/
+def lastElem (p : Bytes) : Bytes := (p.reverse.takeWhile (· != 47)).reverse
+
+/-- `filepath.Base` -/
+def pathBase (p : Bytes) : Bytes :=
+  if p.isEmpty then [46]
+  else
+    let q := lastElem (stripTrailingSlashes p)
+    if q.isEmpty then [47] else q
+
+/-- `filepath.Ext`: from the last `.` of the last element. -/
+def extLoop : Bytes → Bytes → Bytes
+  | [], _ => []
+  | c :: r, acc =>
+    if c == 47 then []
+    else if c == 46 then c :: acc
+    else extLoop r (c :: acc)
+
+def pathExt (p : Bytes) : Bytes := extLoop p.reverse []
+
+def splitSlash : Bytes → Bytes → List Bytes
+  | [], cur => [cur]
+  | 47 :: r, cur => cur :: splitSlash r []
+  | c :: r, cur => splitSlash r (cur ++ [c])
+
+/-- `filepath.Dir` = `Clean(path[:lastSlash+1])`, modelled when that prefix is already clean apart
+    from its trailing slash (no empty, `.` or `..` element); `none` otherwise. -/
+def pathDir (p : Bytes) : Option Bytes :=
+  if !p.contains 47 then some [46]
+  else
+    let d := (p.reverse.dropWhile (· != 47)).reverse        -- path[:i+1], ends in '/'
+    let body := d.dropLast                                  -- without that final slash
+    if body.isEmpty then some [47]                          -- "/x" → "/"
+    else
+      let elems := splitSlash body []
+      let elems' := match elems with
+        | [] :: r => r            -- leading "/" (rooted path)
+        | r => r
+      if elems'.all (fun e => !e.isEmpty && e != [46] && e != [46, 46]) then some body else none
+
+def pathHelper (f : Bytes → Option Bytes) : Builder := fun args =>
+  match args with
+  | [a] => ok (do
+    let v ← a
+    match f v with
+    | some r => pure r
+    | none => .panic "unmodelled:path-clean")
+  | _ => errArgCount
+
+def table : Table := [
+  ("lookup", kfLookupKey), ("haskey", kfHasKey), ("repeat", kfRepeat),
+  ("basename", pathHelper fun p => some (pathBase p)),
+  ("dirname", pathHelper pathDir),
+  ("extname", pathHelper fun p => some (pathExt p))]
 
 end Rare.Expr.Funcs.Misc
